@@ -160,7 +160,7 @@ def mark_node_cases():
                 return [("C17-M/mark_node/parsimonious/unmarked-node-untouched",
                          z3.And(c == Opt.NoClass, S(node.head) == S(pre[0]), S(node.tail) == S(pre[1])))]
             if mode == "init":
-                return [("C17-M/mark_node/while/cut-point-reached", False)]
+                raise EngineUnsupported("the loop under a cut-point contract was not reached: the code was restructured")
             emit = z3.And(c != Opt.NoClass, c != eff_parent(path, ok, ko, m))
             return wrap_obligations(m, node, pre, emit, c != Opt.NoClass, "C17-M/mark_node/parsimonious") + \
                 [("C17-M/mark_node/parsimonious/returns-the-node", r is node)]
